@@ -1,0 +1,55 @@
+//go:build verif
+
+package blake2s
+
+// Contracts for govc (/verif). Comments only.
+
+//@ pred dinv(d) = 1 <= d.size && d.size <= 32 && 0 <= d.offset && d.offset <= 64 && 0 <= d.keyLen && d.keyLen <= 32
+
+//@ func hashBlocks
+//@ props C07
+//@ trusted
+//@ note amd64 dispatcher over SSE2/SSSE3/SSE4 assembly and hashBlocksGeneric: assumed to write only *h and *c
+//@ nonnil h c
+//@ may_panic_when len(blocks) % 64 != 0
+//@ modifies *h
+//@ modifies *c
+
+//@ func consumeUint32
+//@ props C07
+//@ pure
+//@ may_panic_when len(b) < 4
+//@ ensures ref(result0) == ref(b) && off(result0) == off(b) + 4 && len(result0) == len(b) - 4
+//@ ensures result1 == b[3] + b[2]*256 + b[1]*65536 + b[0]*16777216
+
+//@ func (*digest).Write
+//@ props C07
+//@ requires dinv(d)
+//@ requires ref(p) != ref(d.block[:])
+//@ modifies d.*
+//@ ensures dinv(d) && n == len(p) && err == nil
+//@ ensures d.size == old(d.size) && d.keyLen == old(d.keyLen)
+
+//@ func (*digest).finalize
+//@ props C07
+//@ nonnil hash
+//@ requires dinv(d)
+//@ modifies *hash
+//@ ensures d.size == old(d.size) && d.offset == old(d.offset)
+
+//@ func (*digest).Sum
+//@ props C07
+//@ requires dinv(d)
+//@ fresh result
+//@ ensures len(result) == len(sum) + d.size
+//@ ensures d.size == old(d.size) && d.offset == old(d.offset)
+
+//@ func (*digest).UnmarshalBinary
+//@ props C07
+//@ modifies d.*
+//@ ensures implies(result == nil, len(b) == 109 && b[0] == 'b' && b[1] == '2' && b[2] == 's')
+//@ ensures implies(result == nil, d.size == b[43] && d.offset == b[108] && d.keyLen == old(d.keyLen))
+//@ ensures implies(result == nil, forall(i, 0, 64, d.block[i] == b[44+i]))
+//@ ensures implies(result == nil && 0 <= old(d.keyLen) && old(d.keyLen) <= 32, dinv(d))
+//@ ensures implies(len(b) != 109, result != nil)
+//@ canary ensures result == nil
